@@ -276,23 +276,27 @@ def recount(res):
 
 
 def parked_with_room(res):
-    """C04, second clause, on observable events only: the dispatcher sits in pthread_cond_wait, unsignalled,
-    during the dispatch phase (targets remain) while fewer than `fanout` workers are created-and-not-yet-
-    signalled.  Returns the step number or None."""
+    """C04, second clause, on observable events only: the dispatcher sits in pthread_cond_wait and has NOT
+    been signalled, during the dispatch phase (a target has not been started yet), while fewer than `fanout`
+    workers are created-and-not-yet-through-their-epilogue (a worker leaves that set when it releases
+    threadcount_mutex at the end of `lock; threadcount--; signal; unlock`).  Then a slot is free, the worker
+    that freed it is completely done, and nothing is on the way to wake the dispatcher: the next target waits
+    for something other than the dispatcher being scheduled.  A dispatcher that is parked but signalled, or
+    woken and not yet scheduled, is fine and is not reported.  Returns the step number or None."""
     n = int(res["header"].get("n", 0))
     f = int(res["header"].get("fanout", 0))
-    created = signalled = 0
+    created = finished = 0
     for s, ev in res["steps"] + ([(res.get("last_S"), None)] if res.get("last_S") else []):
         if s is not None and created < n:
             parked = "D" in (s.get("P") or "").split(",")
-            if parked and created - signalled < f:
+            if parked and created - finished < f:
                 return s["k"]
-        if ev is None:
+        if ev is None or len(ev) < 3:
             continue
         if ev[0] == "D" and ev[1] == "create" and ev[2].startswith("W"):
             created += 1
-        elif ev[0].startswith("W") and ev[1] == "signal":
-            signalled += 1
+        elif ev[0].startswith("W") and ev[1] == "unlock" and ev[2] == "tc":
+            finished += 1
     return None
 
 
